@@ -126,10 +126,12 @@ func (s *storeManager) CloseStore(name string) error {
 	}
 	kvLogger.Info("close kv store", logger.String("kv", name))
 
-	s.mutex.Lock()
-	defer s.mutex.Unlock()
 	// remove store from cache
+	s.mutex.Lock()
 	delete(s.stores, name)
+	s.mutex.Unlock()
+	// NOTE: cannot hold the manager lock when close the store, because it waits the background jobs of families,
+	// and a running rollup job needs the manager(GetStoreByName) for its next target store.
 	if err := store.close(); err != nil {
 		return err
 	}
